@@ -16,7 +16,13 @@ LEVEL_NOTE = ("Trusted: Coq kernel; translator for _unwind_ptr; hand-written mod
               "(generator coverage); torch indexing/cat/gather/scatter/roll modelled by their meaning. Proved: read, write (both "
               "branches), incr/decr, push (incl. storage creation and dtype adoption), pop/peek, align, reset, readrange "
               "scalar+tensor and their agreement, writerange scalar (all three code paths) and tensor (scatter), well-formedness "
-              "over every run. Negative align indices and dtype promotion corner cases are covered by correspondence only.")
+              "over every run. Negative align indices and dtype promotion corner cases are covered by correspondence only. "
+              "Aliasing is outside the value-based Coq model: that the record holds its own copy of what it was given (caller "
+              "overwrites its observation / offset tensors after the call, reuses offset tensor objects) is checked by the "
+              "differential harness only (the model and the oracle get the values at call time); tensors returned by pop / peek / "
+              "read / scalar-offset readrange are views of the storage on the unchanged code and are not written to. The oracle "
+              "judges observations of another data type on every write path (conversion to the record's own type, storage type "
+              "unchanged, no raise); disagreements that are only about that carry the signature kind 'range_write_dtype'.")
 HEADER = ("From Coq Require Import List ZArith Bool.\nFrom Inferno Require Import Base.NumF C01.Ring C01.RingExec.\n"
           "Import ListNotations.\nOpen Scope Z_scope.\n")
 IMPL = os.path.join(F.VERIF, "tools", "impl", "c01_impl.py")
@@ -58,6 +64,10 @@ def gen_case(rng: random.Random, malformed: bool, aux: random.Random | None = No
         init = ["full", d0, shape, [rand_val(rng, d0) for _ in range(nel(shape))]]
     # data type the record will have (first push adopts the observation's type for None storage)
     dcur = d0 if kind != "none" else None
+    # what the caller does with its own tensors (implementation-only, see tools/impl/c01_impl.py): overwrite the tensors it
+    # handed in / got back, reuse one offset tensor object per (shape, dtype) and update it in place between uses
+    alias = {"obs": aux.random() < 0.8, "ret": aux.random() < 0.8, "pool": aux.random() < 0.8}
+    case_odt = aux.choice(OFFSET_DTYPES) if aux.random() < 0.75 else None     # one offset dtype per case: the pool gets reused
     ops = []
     nops = rng.randint(3, 40)
     inited = kind == "full"
@@ -71,6 +81,8 @@ def gen_case(rng: random.Random, malformed: bool, aux: random.Random | None = No
         dd = rng.choice([0, 1, 2]) if (mixed or dcur is None) else dcur
         if k == "push":
             ops.append(["push", dd, sh, [rand_val(rng, dd) for _ in range(nel(sh))], rng.random() < 0.5])
+            if not ops[-1][4] and aux.random() < 0.3:
+                ops[-1].append("latest")        # implementation side: `rec.latest = obs` (alias of the out-of-place push)
             if not bad_shape or not inited:
                 if dcur is None:
                     dcur = dd
@@ -79,6 +91,8 @@ def gen_case(rng: random.Random, malformed: bool, aux: random.Random | None = No
                     shape = sh
         elif k in ("pop", "peek"):
             ops.append([k])
+            if k == "peek" and aux.random() < 0.4:
+                ops[-1].append("latest")        # implementation side: the `latest` getter (alias of peek)
         elif k == "read":
             ops.append(["read", rng.randint(0, 2 * N)])
         elif k == "write":
@@ -96,7 +110,7 @@ def gen_case(rng: random.Random, malformed: bool, aux: random.Random | None = No
         elif k == "rrt":
             ln = rng.choice([N, rng.randint(1, N)])
             ops.append(["rrt", ln, [rng.randint(0, 2 * N) for _ in range(nel(sh))], sh, rng.random() < 0.5,
-                        aux.choice(OFFSET_DTYPES)])
+                        case_odt or aux.choice(OFFSET_DTYPES)])
         elif k == "wrs":
             ln = rng.choice([N, rng.randint(1, N)]) if not (malformed and rng.random() < 0.2) else N + 1
             inplace = rng.random() < 0.5
@@ -110,8 +124,8 @@ def gen_case(rng: random.Random, malformed: bool, aux: random.Random | None = No
             de = dcur if (dcur is not None and not (malformed and rng.random() < 0.3)) else dd
             ops.append(["wrt", de, sh, [[rand_val(rng, de) for _ in range(ln)] for _ in range(nel(sh))],
                         [rng.randint(0, 2 * N) for _ in range(nel(sh))], sh, rng.random() < 0.5, rng.random() < 0.5,
-                        aux.choice(OFFSET_DTYPES)])
-    return {"N": N, "init": init, "ops": ops}
+                        case_odt or aux.choice(OFFSET_DTYPES)])
+    return {"N": N, "init": init, "ops": ops, "alias": alias}
 
 
 def gen_cases(rng, n, aux=None):
@@ -151,6 +165,102 @@ def gen_offset_cases(rng, n):
                 ops.append(["push", d, shape, [2 * (c + 20 * e) for e in range(ne)], rng.random() < 0.5])
                 c += 1
         cases.append({"N": N, "init": ["full", d, shape, [-2] * ne], "ops": ops})
+    return cases
+
+
+def gen_alias_cases(rng, n):
+    """third stream, aimed at ALIASING between the record and the caller's tensors: all record sizes incl. 1 and 2, every
+    observation dtype, storage given / auto-created; every observation tensor is overwritten by the caller after the call,
+    the same offset tensor object is reused (updated in place) for repeated tensor-offset range reads / writes with the
+    same length and direction, and every write is followed by reads of what must be there."""
+    cases = []
+    for i in range(n):
+        N = [1, 2, 1, 3, 2, 1, 5, 2, 4, 7][i % 10]
+        shape = rng.choice([[2], [2, 3], [], [3, 1], [1], [2]])
+        d = [1, 2, 0, 2, 1][i % 5]
+        ne = nel(shape)
+        odt = OFFSET_DTYPES[(i // 3) % len(OFFSET_DTYPES)]
+        c = [1]
+
+        def val(e):
+            return (2 if (c[0] + e) % 2 else 0) if d == 0 else (2 * (c[0] + 20 * e) if d == 1 else 2 * (c[0] + 20 * e) + 1)
+
+        def obs():
+            c[0] += 1
+            return [val(e) for e in range(ne)]
+
+        def cols(ln):
+            c[0] += 1
+            return [[(val(e) + 2 * j * (d != 0)) if d else (2 if (c[0] + e + j) % 2 else 0) for j in range(ln)]
+                    for e in range(ne)]
+
+        kind = rng.choice(["none", "full", "full"])
+        init = ["none"] if kind == "none" else ["full", d, shape, obs()]
+        ops = [["push", d, shape, obs(), False]] if kind == "none" else []
+        ln0, fwd0 = rng.choice([N, rng.randint(1, N)]), rng.random() < 0.5      # the repeated range read
+        for _ in range(rng.randint(6, 14)):
+            k = rng.choice(["push", "push", "push", "write", "wrs", "wrt", "rrt", "rrt", "rrt", "incr"])
+            if k == "push":
+                ip = rng.random() < 0.35
+                ops.append(["push", d, shape, obs(), ip] + (["latest"] if not ip and rng.random() < 0.4 else []))
+                ops.append(["read", rng.choice([1, 1, N, N + 1])])
+            elif k == "write":
+                off = rng.randint(0, 2 * N)
+                ops.append(["write", d, shape, obs(), off, rng.random() < 0.35])
+                ops.append(["read", off])
+            elif k == "wrs":
+                ln = rng.choice([N, rng.randint(1, N)])
+                ops.append(["wrs", d, shape, cols(ln), rng.randint(0, 2 * N), rng.random() < 0.5, rng.random() < 0.35])
+                ops.append(["rrs", N, 1, False])
+            elif k == "wrt":
+                ln = rng.choice([ln0, rng.randint(1, N)])
+                ops.append(["wrt", d, shape, cols(ln), [rng.randint(0, 2 * N) for _ in range(ne)], shape,
+                            rng.choice([fwd0, rng.random() < 0.5]), rng.random() < 0.5, odt])
+                ops.append(["rrs", N, 1, False])
+            elif k == "rrt":
+                ops.append(["rrt", ln0, [rng.randint(0, 2 * N) for _ in range(ne)], shape, fwd0, odt])
+            else:
+                ops.append(["incr", rng.randint(0, N)])
+        ops.append(["rrs", N, 1, False])
+        cases.append({"N": N, "init": init, "ops": ops, "alias": {"obs": True, "ret": True, "pool": True}})
+    return cases
+
+
+def gen_dtype_cases(rng, n):
+    """fourth stream: observations whose data type differs from the record's, through every write path (push / latest=,
+    write, scalar- and tensor-offset writerange, in place and out of place, contiguous and wrapped ranges, N >= 1): the
+    property says they are converted to the record's own data type - nothing else may change, in particular not the data
+    type of the storage, and nothing may raise."""
+    cases = []
+    for i in range(n):
+        N = [3, 2, 4, 1, 5][i % 5]
+        shape = rng.choice([[2], [], [2, 3], [1]])
+        d0 = [1, 2, 0][i % 3]
+        de = rng.choice([x for x in (0, 1, 2) if x != d0])
+        ne = nel(shape)
+        ops = [["push", d0, shape, [rand_val(rng, d0) for _ in range(ne)], rng.random() < 0.5]
+               for _ in range(rng.randint(0, N + 1))]
+        for _ in range(rng.randint(2, 4)):
+            k = ["wrs", "wrt", "wrs", "wrt", "push", "write"][(i + len(ops)) % 6] if rng.random() < 0.7 else rng.choice(
+                ["wrs", "wrt", "push", "write"])
+            if k == "push":
+                ops.append(["push", de, shape, [rand_val(rng, de) for _ in range(ne)], rng.random() < 0.5])
+            elif k == "write":
+                ops.append(["write", de, shape, [rand_val(rng, de) for _ in range(ne)], rng.randint(0, 2 * N),
+                            rng.random() < 0.5])
+            elif k == "wrs":
+                ln = rng.choice([N, rng.randint(1, N)])
+                ops.append(["wrs", de, shape, [[rand_val(rng, de) for _ in range(ln)] for _ in range(ne)],
+                            rng.randint(0, 2 * N), rng.random() < 0.5, rng.random() < 0.4])
+            else:
+                ln = rng.choice([N, rng.randint(1, N)])
+                ops.append(["wrt", de, shape, [[rand_val(rng, de) for _ in range(ln)] for _ in range(ne)],
+                            [rng.randint(0, 2 * N) for _ in range(ne)], shape, rng.random() < 0.5, rng.random() < 0.5,
+                            rng.choice(OFFSET_DTYPES)])
+            ops.append(["rrs", N, 1, False])
+            ops.append(["push", d0, shape, [rand_val(rng, d0) for _ in range(ne)], rng.random() < 0.5])
+        cases.append({"N": N, "init": ["full", d0, shape, [rand_val(rng, d0) for _ in range(ne)]], "ops": ops,
+                      "alias": {"obs": rng.random() < 0.5, "ret": False, "pool": False}})
     return cases
 
 
@@ -341,10 +451,10 @@ class ListModel:
             ln = len(cols[0])
             if sh != self.shape or ln > N:
                 return None
-            if k == "wrt" and (op[5] != self.shape or d != self.d):
+            if k == "wrt" and op[5] != self.shape:
                 return None
-            if k == "wrs" and d != self.d and not op[6]:
-                return None  # documented type promotion of out-of-place range writes: not judged
+            # an observation data type other than the record's: converted to the record's own type like everywhere else
+            # (the property statement); judged on every path
             fwd = op[5] if k == "wrs" else op[6]
             n = nel(self.shape)
             offs = [op[4]] * n if k == "wrs" else op[4]
@@ -358,11 +468,32 @@ class ListModel:
         raise AssertionError(k)
 
 
+def mismatched_range_write(m, op):
+    """a writerange the record can take (shape, length, offsets all fine) whose observations have another data type"""
+    if m.h is None or op[0] not in ("wrs", "wrt") or op[1] == m.d or op[2] != m.shape or not op[3]:
+        return False
+    if len(op[3][0]) > m.N or (op[0] == "wrt" and op[5] != m.shape):
+        return False
+    return True
+
+
 def oracle_case(case, trace):
-    """compare the implementation's trace with the list-of-observations model; returns None or a
-    description of the first disagreement"""
+    """compare the implementation's trace with the list-of-observations model; returns None or a description of the first
+    disagreement (with a 'signature').  Disagreements that are only about the DATA TYPE after a range write with
+    observations of another type (signature kind 'range_write_dtype') do not stop the comparison: the model is
+    re-synchronised with the implementation and the rest of the case is still judged; such a disagreement is returned
+    only if the case has no other."""
     m = ListModel(case)
+    dfind = None
     for i, (op, (out, snap)) in enumerate(zip(case["ops"], trace)):
+        if mismatched_range_write(m, op) and out[0] != 0:
+            if dfind is None:
+                dfind = {"step": i, "op": op, "expected": "observations converted to the record's data type %r and written" % m.d,
+                         "got": {"raised": out[1:]},
+                         "signature": {"kind": "range_write_dtype", "op": op[0], "how": "raises"}}
+            m = resync(m, snap)
+            continue
+        d_before = m.d
         exp = m.step(op)
         if exp is None:
             if out[0] == 0 and op[0] not in ("align",):
@@ -372,12 +503,29 @@ def oracle_case(case, trace):
                 pass
             continue
         if out[0] != 0:
-            return {"step": i, "op": op, "expected": exp, "got": {"raised": out[1:]}}
+            return {"step": i, "op": op, "expected": exp, "got": {"raised": out[1:]}, "signature": {"kind": "history"}}
+        if m.h is not None and snap[2] == 2 and d_before is not None and snap[3] != d_before:
+            # the record's own data type changed under a write
+            f = {"step": i, "op": op, "expected": "storage keeps the record's data type %r" % d_before,
+                 "got": {"storage_dtype": snap[3]},
+                 "signature": ({"kind": "range_write_dtype", "op": op[0], "how": "storage_dtype_changed"}
+                               if op[0] in ("wrs", "wrt") and op[1] != d_before else {"kind": "history"})}
+            if f["signature"]["kind"] == "history":
+                return f
+            if op[0] == "wrs" and not op[6]:
+                # DOCUMENTED: an out-of-place scalar-offset range write does not convert `obs` ("this may cause the data
+                # type of the stored tensor to change", RecordTensor.writerange, Important) - the Coq model promotes too
+                # (Ring.writerange_scalar); the values are judged after re-synchronising on the promoted type
+                m = resync(m, snap)
+                continue
+            dfind = dfind or f
+            m = resync(m, snap)
+            continue
         if exp == "int":
             continue
         if out[1] != exp:
-            return {"step": i, "op": op, "expected": exp, "got": out[1]}
-    return None
+            return {"step": i, "op": op, "expected": exp, "got": out[1], "signature": {"kind": "history"}}
+    return dfind
 
 
 def resync(m, snap):
@@ -401,6 +549,8 @@ def run(ctx):
     n = 400 if ctx["tier"] == "quick" else 4000
     cases = load_corpus() + gen_cases(rng, n, random.Random(ctx["seed"] * 31 + 7))
     cases += gen_offset_cases(random.Random(ctx["seed"] * 131 + 5), 60 if ctx["tier"] == "quick" else 600)
+    cases += gen_alias_cases(random.Random(ctx["seed"] * 257 + 3), 80 if ctx["tier"] == "quick" else 800)
+    cases += gen_dtype_cases(random.Random(ctx["seed"] * 521 + 9), 30 if ctx["tier"] == "quick" else 300)
     # narrow integer offsets close to their dtype maximum (overflowed before the repair 0084b90): always run
     cases += narrow_offset_overflow_cases()
     exhaustive = False
@@ -421,7 +571,7 @@ def run(ctx):
                                                      "model": tm[j] if j is not None else None}})
         o = oracle_case(c, ti)
         if o is not None:
-            oracle_fail.append({"case": c, "detail": o})
+            oracle_fail.append({"case": c, "detail": o, "signature": o.get("signature")})
     from collections import Counter
     dist = Counter(o[0] for c in cases for o in c["ops"])
     errs = Counter(("err%d" % t[0][1]) for tr in impl for t in tr if t[0][0] == 1)
@@ -432,7 +582,12 @@ def run(ctx):
                 "3 dtypes, storage None/empty/initialised; every 4th case from a malformed stream; tensor offsets handed to the "
                 "implementation as int64/int32/int16/uint8 tensors with identical values) plus a stream aimed at the tensor-"
                 "offset range paths (N in {3,5,6,7,2,4}, distinguishable contents, forward/backward ranges with small and "
-                "large offsets, every offset dtype in turn); non-trivial = "
+                "large offsets, every offset dtype in turn), a stream aimed at aliasing (N in {1,2,1,3,2,1,5,2,4,7}, every dtype: the "
+                "caller overwrites every observation tensor it handed in right after the call and every tensor a tensor-offset "
+                "readrange returned, and reuses ONE offset tensor object per (shape, dtype), updated in place, for repeated "
+                "range reads/writes of the same length and direction; the same caller behaviour in ~80% of the first stream, "
+                "incl. `latest =` / `latest` for push / peek) and a stream of observations whose dtype differs from the "
+                "record's through every write path; non-trivial = "
                 ">=3 ops of >=2 kinds; distinct by full case text"
                 + ("; plus every sequence of depth<=3 over a 14-op alphabet for N<=3" if exhaustive else ""),
         "op_distribution": dict(dist), "error_distribution": dict(errs),
@@ -443,6 +598,12 @@ def run(ctx):
             1 for c in cases for o in c["ops"]
             if (o[0] == "rrt" and o[4] and min(o[2], default=99) < o[1] - 1)
             or (o[0] == "wrt" and o[6] and o[3] and min(o[4], default=99) < len(o[3][0]) - 1)),
+        "caller_aliasing_distribution": dict(Counter(
+            "+".join(k for k in ("obs", "ret", "pool") if (c.get("alias") or {}).get(k)) or "none" for c in cases)),
+        "repeated_tensor_offset_reads_same_object_length_direction": sum(
+            1 for c in cases if (c.get("alias") or {}).get("pool")
+            for k, n in Counter((tuple(o[3]), o[5], o[1], o[4]) for o in c["ops"] if o[0] == "rrt" and len(o) > 5).items()
+            if n > 1),
         "samples": cases[:2],
         "mismatches": mismatches, "oracle_failures": oracle_fail,
         "traces_validated_against_impl": len(cases) - len(mismatches),
@@ -460,6 +621,11 @@ def load_corpus():
 def minimise(case, rounds=10):
     """delta-debugging on the operation list against the implementation + oracle; one subprocess per round"""
     ops = case["ops"]
+    d0 = oracle_case(case, F.run_impl(IMPL, {"cases": [case]})[0])
+    kind0 = d0["signature"]["kind"] if d0 else None      # keep the KIND of failure while shrinking
+
+    def same(o):
+        return o is not None and (kind0 is None or o["signature"]["kind"] == kind0)
     for _ in range(rounds):
         n = len(ops)
         if n <= 1:
@@ -475,7 +641,7 @@ def minimise(case, rounds=10):
         better = None
         for c, t in zip(cands, tr):
             cc = dict(case, ops=c)
-            if oracle_case(cc, t) is not None:
+            if same(oracle_case(cc, t)):
                 better = c
                 break
         if better is None:
